@@ -37,6 +37,7 @@ pub fn child_main(args: &[String]) -> i32 {
     match args.first().map(|s| s.as_str()) {
         Some("c03") => c03::child(&args[1..]),
         Some("busyrecv") => c05::child_busy_recv(&args[1..]),
+        Some("fdcycles") => c16::child_fd_cycles(&args[1..]),
         _ => {
             eprintln!("unknown child kind");
             2
